@@ -195,6 +195,48 @@ CHECKS.update({
     ),
 })
 
+_RD_NOTE = ("Trusted: TLC, the scripted-randomness / gate shims. Stage models are exhaustive for small sources and "
+            "buffers; timings inside ThreadPoolExecutor, tf.data and asyncio are sampled; LazyPool and the Rust map "
+            "are covered exhaustively for small constants by C13 / C15.")
+CHECKS.update({
+    "C02": dict(
+        engine="ShuffleBuffer.tla, RoundRobin.tla, BatchMap.tla, LazyPool.tla, Reads_Eval.tla", category="model_checking",
+        text="Each buffering stage is a step machine with nondeterministic index choices: BagPreserving / Complete are "
+             "checked by TLC for all choices (sources 0..7, buffers 1..4, inner lengths 0..3). An edge cover of every "
+             "state graph is imposed on the real shuffle_buffer / round_robin (sync and async) through scripted "
+             "randomness with pull counts and outputs compared after every yield; pull/yield logs of runs with the real "
+             "generator are validated by ShuffleBuffer_Trace.tla. End to end, datasets built from multi-split, nested, "
+             "continued and multi-writer histories are read with repeat=False through all five interfaces for shuffle "
+             "in {0,1,2,>N} x file_parallelism in {1,2,>shards} (plus an injective process_record) and TLC judges "
+             "yielded bag = committed bag.",
+        design_ref="DESIGN.md 3.4, 4.5, 5/C02", note=_RD_NOTE,
+        technique="TLA+ model checking of the pipeline stages + scripted-choice replay + trace validation + TLC-judged end-to-end reads",
+    ),
+    "C03": dict(
+        engine="Dataset.tla, BatchMap.tla, Reads_Eval.tla", category="model_checking",
+        text="Write side: C03_WriteOrder of Dataset.tla (closing order, depth-first children, merge keeps update "
+             "order, multi-writer in argument order) model checked and judged on projected states and real read-backs "
+             "of replayed histories with splits interleaved inside sessions. Read side: BatchMap.tla OrderPreserving "
+             "for every completion order; an edge cover of completion orders is imposed on the real unshuffled "
+             "concurrent path through gates around process_and_list. End to end every interface with shuffle=0 "
+             "yields, on repeated passes, on the writing handle and after reopening, for file_parallelism in "
+             "{1,2,>shards}, the same sequence containing every session's examples in write order (TLC-judged).",
+        design_ref="DESIGN.md 5/C03", note=_RD_NOTE,
+        technique="TLA+ model checking (write order, ordered map) + completion-order replay + TLC-judged end-to-end sequences",
+    ),
+    "C19": dict(
+        engine="EpochLoop.tla, ShuffleBuffer.tla, Reads_Eval.tla", category="model_checking",
+        text="EpochLoop.tla (itertools.cycle / the per-epoch loop of the Rust generator: NeverEnds, Periodic, "
+             "EpochsArePermutations, OneLiveIterator) and ShuffleBuffer.tla over a cyclic source (only source "
+             "elements, never stalls) are model checked; stream prefixes of three epochs are taken from every "
+             "interface with repeat=True for shuffle in {0,1,n,>n} x file_parallelism in {1,2,>shards} on real "
+             "multi-split datasets and judged by TLC: membership in the split, periodic repetition when unshuffled, "
+             "permutation per epoch for the Rust interface, prefix delivered under a watchdog.",
+        design_ref="DESIGN.md 5/C19", note=_RD_NOTE,
+        technique="TLA+ model checking of the repetition machinery + TLC-judged stream prefixes of every interface",
+    ),
+})
+
 NOT_YET = {}
 
 ALL = [f"C{i:02d}" for i in range(1, 21)]
